@@ -761,7 +761,8 @@ def oracle_fault(fault):
     """a server with an authenticator under a low RLIMIT_NOFILE (subprocess): `resets` clients connect and reset, at once or
     after one byte of their credentials; afterwards nothing of them is tracked and a well-behaved client is served"""
     res = servers.run_exhaustion(fault["server"], fault["resets"])
-    if res["good_client"] != "pong" or not res["accept_alive"] or not res["listener_open"] or res["tracked"]:
+    if (res["good_client"] != "pong" or not res["accept_alive"] or not res["listener_open"] or res["tracked"] or
+            res.get("leaked", 0) > 0):
         return ("after %d clients that reset inside / before the authenticator (descriptor limit %d): %r"
                 % (fault["resets"], res["limit"], res)), "C16:%s:departed-client-keeps-descriptor" % fault["server"]
     return None
